@@ -165,13 +165,10 @@ fn prefix_function(args: &std::collections::HashMap<String, Value>) -> Result<Va
 
     let length = args.get("length").and_then(|v| v.as_u64()).unwrap_or(10) as usize;
 
-    let prefix = if input.len() > length {
-        &input[..length]
-    } else {
-        &input
-    };
+    // at most `length` characters (a byte slice would panic inside a multi-byte character)
+    let prefix: String = input.chars().take(length).collect();
 
-    Ok(Value::String(prefix.to_string()))
+    Ok(Value::String(prefix))
 }
 
 /// Add conditional prefix to string (only if string is not empty)
@@ -223,7 +220,14 @@ fn format_timestamp_function(
     let dt = DateTime::from_timestamp(timestamp as i64, 0)
         .ok_or_else(|| tera::Error::msg("Invalid timestamp"))?
         .with_timezone(&Utc);
-    let formatted = dt.format(chrono_format).to_string();
+    // An invalid strftime pattern makes chrono's Display fail; report it instead of panicking
+    let mut formatted = String::new();
+    {
+        use std::fmt::Write;
+        write!(formatted, "{}", dt.format(chrono_format)).map_err(|_| {
+            tera::Error::msg(format!("Invalid timestamp format: {}", format))
+        })?;
+    }
 
     Ok(Value::String(formatted))
 }
